@@ -149,6 +149,24 @@ def coverage_world(seed, kinds, annotated=False):
             names.append(r.name)
             w.make_read("chr1", [(start - 1500, start - 1010)], name=r.name, flag=256, mapq=60, truth={"cluster": len(clusters), "kind": kind, "bridge-secondary": True})
             end = gx[3][1]
+        elif kind == "lowmapq_spliced":
+            # gene-free locus: alignments with 3 and 4 exons and MAPQ 0 / 1 / 60 (the documented MAPQ filter concerns alignments with 1 or 2
+            # exons only), plus 1- and 2-exon alignments with MAPQ >= 1
+            ex4 = [(start, start + 300), (start + 700, start + 950), (start + 1400, start + 1700), (start + 2200, start + 2500)]
+            for i_ in range(3):
+                w.plant_sites("chr1", (ex4[i_][1] + 1, ex4[i_ + 1][0] - 1), "+")
+            for q in (0, 1, 60):
+                for n_ex in (3, 4):
+                    for k in range(2):
+                        r = w.make_read("chr1", [(ex4[0][0] + 5 * k, ex4[0][1])] + ex4[1:n_ex - 1] + [(ex4[n_ex - 1][0], ex4[n_ex - 1][1] - 7 * k)], mapq=q,
+                                        truth={"cluster": len(clusters), "kind": kind, "mapq": q, "exons": n_ex})
+                        names.append(r.name)
+            for q in (1, 60):
+                r = w.make_read("chr1", [(ex4[0][0] + 20, ex4[0][1] - 20)], mapq=q, truth={"cluster": len(clusters), "kind": kind})
+                names.append(r.name)
+                r = w.make_read("chr1", [(ex4[0][0] + 30, ex4[0][1]), (ex4[1][0], ex4[1][1] - 30)], mapq=q, truth={"cluster": len(clusters), "kind": kind})
+                names.append(r.name)
+            end = ex4[-1][1]
         elif kind == "small":
             for _ in range(rng.randint(5, 40)):
                 s = start + rng.randint(0, 2000)
@@ -278,7 +296,7 @@ def run(chk, scratch):
                 "tuples where the cluster was split into >=2 regions or fell into the single-bin case")
     n_inproc = 40 if thorough else 6
     n_cli = 10 if thorough else 2
-    kind_sets = [["pile1bin", "valleys", "small"], ["valleys_tail", "long_sparse", "gene_valley"], ["pile2bins", "bridged", "valleys"],
+    kind_sets = [["pile1bin", "valleys", "small", "lowmapq_spliced"], ["valleys_tail", "long_sparse", "gene_valley", "lowmapq_spliced"], ["pile2bins", "bridged", "valleys"],
                  ["valleys_tail", "pile1bin"], ["long_sparse", "valleys", "small"], ["bridged", "valleys_tail"]]
     jobs = []
     worlds = {}
@@ -388,7 +406,7 @@ def run(chk, scratch):
             chk.witness_files = [os.path.join(d, f) for f in ("g.fa", "a.gtf", "r.bam", "r.bam.bai")]
     chk.extra.update({"reads_accounted": total_reads, "clusters_split_or_single_bin": split_clusters,
                       "records_seen_in_more_than_one_region": multi_region_reads})
-    chk.assumptions = ["expected set = mapped, non-supplementary records (all MAPQ 60); filtered categories are labelled by the generator",
+    chk.assumptions = ["expected set = mapped, non-supplementary records (MAPQ 60, and MAPQ 0 / 1 for alignments with 3 or more exons, MAPQ 1 for shorter ones); filtered categories are labelled by the generator",
                        "read ids are unique per alignment in these workloads, so distinct ids = distinct reads"]
     chk.inconclusive_if(split_clusters == 0, "no cluster was split")
     chk.min_nontrivial = 4
